@@ -289,3 +289,56 @@ def selection_strategy(draw: Any, P: Dict[str, Any], valid_only: bool = True) ->
         pool = sorted(cur)
         sel["T"] = draw(st.lists(st.sampled_from(pool), min_size=1, max_size=len(pool), unique=True))
     return sel
+
+
+# ------------------------------------------------------------------------------------ exhaustive small scope
+def small_scope_cases(dims: Sequence[str], flavours: Sequence[bool] = (False,), mcs: Sequence[int] = (1, 2, 3),
+                      resource: str = "thread", max_leaves: int = 5000) -> Any:
+    """Every DAG on 4 ordered nodes (64 edge sets) x the chosen dimensions, each with its WHOLE completion-order tree.
+
+    dims may contain: "prio" (priorities in {0..3}^4), "seq" (every subset of sequential nodes), "fail" (each single
+    failing node).  Yields sched cases in a fixed order (the caller slices by index)."""
+    import itertools
+
+    pairs = [(a, b) for a in range(4) for b in range(a + 1, 4)]
+    prio_space = list(itertools.product(range(4), repeat=4)) if "prio" in dims else [(0, 0, 0, 0)]
+    seq_space = range(16) if "seq" in dims else [0]
+    fail_space = [None, 0, 1, 2, 3] if "fail" in dims else [None]
+    for emask in range(64):
+        for prios in prio_space:
+            for smask in seq_space:
+                for fail in fail_space:
+                    for mc in mcs:
+                        for fl in flavours:
+                            fns, body = {}, []
+                            for j in range(4):
+                                fns[f"n{j}"] = {"kind": "term", "res": resource, "prio": prios[j]}
+                                if smask >> j & 1:
+                                    fns[f"n{j}"]["seq"] = True
+                                args = [["v", f"v{a}"] for bit, (a, b) in enumerate(pairs) if b == j and emask >> bit & 1]
+                                body.append({"k": "call", "fn": f"n{j}", "site": gen.site(j), "mark": True, "args": args,
+                                             "kwargs": {}, "active": None, "unpack": None, "tags": [], "out": f"v{j}"})
+                            P = {"name": "S", "params": [], "fns": fns, "body": body,
+                                 "ret": ["T", [["v", f"v{j}"] for j in range(4)]]}
+                            c: Dict[str, Any] = {"prog": P, "mc": mc, "async": fl, "mode": "ctl-ex", "max_leaves": max_leaves,
+                                                 "small_scope": True}
+                            if fail is not None:
+                                c["failing"] = [gen.site(fail)]
+                            yield c
+
+
+def run_small_scope(H: Any, dims: Sequence[str], **kw: Any) -> None:
+    """Thorough tier: enumerate the small scope completely, split over the shards (no time limit: it is finite)."""
+    n = 0
+    H.deadline += 100_000
+    try:
+        for i, c in enumerate(small_scope_cases(dims, **kw)):
+            if i % H.nshards != H.shard:
+                continue
+            H.one(c)
+            n += 1
+    finally:
+        H.deadline -= 100_000
+    H.phase_info["small_scope_cases"] = n
+    H.phase_info["exhaustive"] = True
+    H.phase_info["exhaustive_scope"] = f"all 64 edge sets on 4 ordered nodes x {list(dims)} x {kw or 'max_concurrency 1..3'}, whole completion-order tree of each"
